@@ -1116,3 +1116,6 @@ M("C07-fraction-without-separators", "C07", "src/cppparser/cppPreprocessor.cxx",
   "    while (c != EOF && isdigit(c)) {\n      num += get();\n      c = skip_digit_separator(peek());\n    }\n  }\n\n  if (decimal_point || c == 'e' || c == 'E') {",
   "    while (c != EOF && isdigit(c)) {\n      num += get();\n      c = peek();\n    }\n  }\n\n  if (decimal_point || c == 'e' || c == 'E') {",
   expect="R07.10|get_number|")
+M("C07-cast-to-short-ignores-width", "C07", "src/cppparser/cppExpression.cxx",
+  '          if (stype->_flags & CPPSimpleType::F_short) {\n            if (stype->_flags & CPPSimpleType::F_unsigned) {\n              return Result((int)(unsigned short)value);\n            } else {\n              return Result((int)(short)value);\n            }\n          }\n', "",
+  expect="R07.12|evaluate|cast-to-T_int|plain-return")
